@@ -134,7 +134,9 @@ func checkTrustedMembership(c *Ctx) {
 		for _, ci := range callsIn(cs, func(nm string, cc *ssa.CallCommon) bool {
 			return strings.HasSuffix(nm, "netip.Prefix).Contains") || (holder != cs && staticCallee(cc) == holder)
 		}) {
-			g, ns := MustCross(ci, func(e Edge, cond ssa.Value, truth bool) bool { return errNilEdge(cond, truth, callSuffix("netip.ParseAddr")) })
+			g, ns := MustCross(ci, func(e Edge, cond ssa.Value, truth bool) bool {
+				return errNilEdge(cond, truth, callSuffix("netip.ParseAddr"))
+			})
 			c.Check("contains-parse-failure", "membership-after-parse-ok@ContainsStr", ci, g && ns > 0, "membership is tested although the host did not parse")
 		}
 	}
